@@ -107,3 +107,13 @@ Theorem C01_space_total : forall s size erase,
    (count_free (s_fat s) (ft s) (max_cluster s) (length (s_fat s)) 0 < Z.to_nat (Gen.calc_num_clusters (s_p s) size))%nat).
 Proof. exact allocate_enospc_total. Qed.
 Print Assumptions C01_space_total.
+
+(** ... after ANY history of interface calls from a state with the invariant (Proofs/HintOps.v carries it through every operation) *)
+From Coq Require Import Relations.
+From PyFatV Require Import Proofs.BootSafe Proofs.Inside Proofs.HintOps.
+Theorem C01_space_after_history : forall s s' size erase,
+  pre s -> hint_inv s -> clos_refl_trans st wstep s s' -> s_ro s' = false -> 0 <= Gen.calc_num_clusters (s_p s') size ->
+  (allocate s' size erase = Err ENOSPC <->
+   (count_free (s_fat s') (ft s') (max_cluster s') (length (s_fat s')) 0 < Z.to_nat (Gen.calc_num_clusters (s_p s') size))%nat).
+Proof. exact history_enospc_exact. Qed.
+Print Assumptions C01_space_after_history.
